@@ -159,6 +159,16 @@ func patchRuntimeRand(src string) (string, error) {
 func doBuild(wantSim bool) *Build {
 	t0 := time.Now()
 	b := &Build{RepoDir: repoDir(), VerifDir: verifDir()}
+	// remove scratch directories abandoned by runs that were killed (older than 6 hours)
+	if ents, err := os.ReadDir(scratchRoot()); err == nil {
+		for _, e := range ents {
+			if strings.HasPrefix(e.Name(), "verifsim-") {
+				if info, err := e.Info(); err == nil && time.Since(info.ModTime()) > 6*time.Hour {
+					os.RemoveAll(filepath.Join(scratchRoot(), e.Name()))
+				}
+			}
+		}
+	}
 	scratch, err := os.MkdirTemp(scratchRoot(), "verifsim-")
 	if err != nil {
 		infraFail("mktemp: %v", err)
